@@ -647,3 +647,12 @@ Definition read_uint (opt : bool) (o : order) (bs : list N) (off w : Z) : option
   uint_read opt (bits_field o bs off w) w.
 Definition read_int (opt : bool) (o : order) (bs : list N) (off w : Z) : option Z :=
   int_read opt (bits_field o bs off w) w.
+
+(* ------------------------------------------------------------------------- *)
+(* 7. [requires]: CouldWriteValue ends with `&& Parameters::ValueIsOk(static_cast<ValueType>(value))`;
+      [vok] stands for the generated validator (its expression semantics are C01's subject) *)
+(* ------------------------------------------------------------------------- *)
+Definition uint_could_write_req (vok : Z -> bool) (argty : cty) (w : Z) (v : Z) : option bool :=
+  b <- uint_could_write argty w v ;; Some (if b then vok (wrap (uty w) v) else false).
+Definition int_could_write_req (vok : Z -> bool) (argty : cty) (w : Z) (v : Z) : option bool :=
+  b <- int_could_write argty w v ;; Some (if b then vok (wrap (sty w) v) else false).
